@@ -72,7 +72,8 @@ class Queue:
         self.transport = False
         self.lost = []
 
-    def put(self, item):
+    def put(self, item, block=True, timeout=None):
+        self.put_args = getattr(self, "put_args", []) + [(block, timeout)]
         # items travel pickled (as in multiprocessing): an item that cannot be pickled is
         # lost in the feeder thread; symbolic task results stand for picklable values
         self.puts.append(item)
@@ -86,7 +87,8 @@ class Queue:
                 return
         self.pending.append(item)
 
-    def get(self):
+    def get(self, block=True, timeout=None):
+        self.get_args = getattr(self, "get_args", []) + [(block, timeout)]
         if not self.pending and self.on_empty is not None:
             self.on_empty(self)
         if not self.pending:
@@ -169,6 +171,7 @@ def make_call_run(n, nworkers, failing=None, exc_type=None):
             ctx.oblige(TRUE(not isinstance(exc, WouldBlock) and not rq.lost), "liveness: the caller never waits on an answer that cannot arrive")
             ctx.oblige(TRUE([p[0] for p in tq.puts] == list(range(n)) and all(p[1] is function and p[2] == args_list[p[0]] and p[3] == {"extra": "kw"} for p in tq.puts)), "every task is put exactly once, tagged with its index")
             ctx.oblige(TRUE(len(rq.puts) == n), "liveness: the workers answer every task (|answers| = n), also when tasks fail")
+            ctx.oblige(TRUE(all(a == (True, None) for q in (rq, tq) for a in getattr(q, "get_args", []) + getattr(q, "put_args", []))), "every queue operation waits without a deadline: a task that takes long is not a failed task (the serial map has no deadline either), and nothing is left behind in a queue by giving up")
             ctx.oblige(TRUE(sorted(p[0] for p in rq.puts) == list(range(n))), "each index answered exactly once")
             ctx.oblige(TRUE(tq.empty() and rq.empty()), "queues are clean afterwards (no stale answer reaches the next call)")
             ctx.oblige(TRUE(all(c[1] is eq and c[2:5] == ("PSI", "FR", "FZ") and c[5] == "kw" for c in calls)), "workers call function(*args, equilibrium, psi, f_R, f_Z, **kwargs)")
